@@ -51,7 +51,9 @@ def parseR (s : String) : R :=
     let obj := ":".intercalate rest
     match obj.splitOn "|" with
     | k :: others =>
-      if k.startsWith "key=" then .ok ⟨etag, size.toNat!, (k.drop 4).toString, "|".intercalate others⟩ body
+      if k.startsWith "key=" then
+        let key := (k.drop 4).toString
+        .ok ⟨etag, size.toNat!, if key == "-" then "" else key, "|".intercalate others⟩ body
       else .bad s
     | _ => .bad s
   | _ => .bad s
@@ -85,7 +87,7 @@ def curOf (r : R) : Except String (Head × Body) :=
   | .err k => .error k
   | .bad _ => .error "unparsable"
 
-structure Seq where
+structure SeqSt where
   cache   : Cache := Cache.empty
   lastMut : List (Key × String) := []
   pending : Option (List String) := none     -- op tokens waiting for their `res`
@@ -98,17 +100,17 @@ structure Seq where
   muts    : Nat := 0
   idx     : Nat := 0
 
-def Seq.stat (s : Seq) (k : String) : Seq := { s with stats := addStats s.stats [(k, 1)] }
+def SeqSt.stat (s : SeqSt) (k : String) : SeqSt := { s with stats := addStats s.stats [(k, 1)] }
 
-def Seq.addVio (s : Seq) (sig msg : String) : Seq :=
+def SeqSt.addVio (s : SeqSt) (sig msg : String) : SeqSt :=
   if s.vio.any (·.1 == sig) then s else { s with vio := s.vio ++ [(sig, msg)] }
 
 def setLast (l : List (Key × String)) (k : Key) (m : String) : List (Key × String) :=
   (k, m) :: l.filter (·.1 != k)
 
 /-- Apply a finished non-read call to the model cache. -/
-def Seq.applyCall (s : Seq) (p : Params) (t : List String) (ok : Bool) (resToks : List String)
-    (data : String) (dataSize : Nat) (inhead : R) : Seq :=
+def SeqSt.applyCall (s : SeqSt) (p : Params) (t : List String) (ok : Bool) (resToks : List String)
+    (data : String) (dataSize : Nat) (inhead : R) : SeqSt :=
   let name := t.getD 1 ""
   let method := methodOf name
   let key : Key := if name == "cp" then t.getD 4 "" ++ "/" ++ t.getD 5 "" else t.getD 2 "" ++ "/" ++ t.getD 3 ""
@@ -141,7 +143,7 @@ def outToR : Out → R
   | _ => .bad "no-result"
 
 /-- One `rd` line: tie + judge. -/
-def Seq.read (s : Seq) (p : Params) (evicting : Bool) (t : List String) : Seq := Id.run do
+def SeqSt.read (s : SeqSt) (p : Params) (evicting : Bool) (t : List String) : SeqSt := Id.run do
   let kind := t.getD 1 ""
   let key : Key := t.getD 2 "" ++ "/" ++ t.getD 3 ""
   let vid := kvOf t "vid"
@@ -213,7 +215,7 @@ def judgeSeq (cfg : List String) (lines : List String) : Verdict := Id.run do
   let maxObj := (kvOf cfg "maxobj").toNat!
   let evicting := kvOf cfg "policy" != "none"
   let p : Params := ⟨modeOfTable Gen.ObjectCache.overrides, codeKeepsKey, maxObj⟩
-  let mut s : Seq := {}
+  let mut s : SeqSt := {}
   for l in lines do
     let t := tokens l
     match t with
@@ -266,6 +268,7 @@ def judgeConc (cfg : List String) (lines : List String) : Verdict := Id.run do
     match tokens l with
     | ["w", i, e, sz, b] => some ⟨i.toNat!, e, sz.toNat!, b⟩
     | _ => none
+  let fsPersistor := kvOf cfg "persistor" == "fs"
   let mut vio : List (String × String) := []
   let mut div : List String := []
   let mut stats : List (String × Nat) := [(mode ++ "_cases", 1), ("versions_written", vers.length)]
@@ -283,10 +286,14 @@ def judgeConc (cfg : List String) (lines : List String) : Verdict := Id.run do
       reads := reads + 1
       stats := addStats stats [("conc_" ++ kind, 1)]
       match vers.find? (fun v => v.etag == etag) with
-      | none => vio := vio ++ [("C20.conc-unknown-etag", s!"r{n}:{tag}:etag-of-no-written-version")]
+      | none =>
+        -- the filesystem persistor rewrites the head file in place: a reader can see two versions' JSON mixed
+        if fsPersistor then vio := vio ++ [("C20.conc-torn-head", s!"r{n}:{tag}:etag-of-no-written-version")]
+        else vio := vio ++ [("C20.conc-unknown-etag", s!"r{n}:{tag}:etag-of-no-written-version")]
       | some v =>
         if v.size != size.toNat! then
-          vio := vio ++ [("C20.conc-size-mismatch", s!"r{n}:{tag}:etag-of-v{v.idx}-with-size-{size}")]
+          if fsPersistor then vio := vio ++ [("C20.conc-torn-head", s!"r{n}:{tag}:etag-of-v{v.idx}-with-size-{size}")]
+          else vio := vio ++ [("C20.conc-size-mismatch", s!"r{n}:{tag}:etag-of-v{v.idx}-with-size-{size}")]
         else if kind == "get" then
           let bv := bodyVersion vers runs
           pairs := pairs ++ [(v.idx, bv)]
